@@ -874,6 +874,28 @@ pub async fn gen_catchup(sim: &mut Sim, rng: &mut Prng, stats: &mut Stats, name:
         let st = *rng.pick(&[0u8, 0, 1, 2]);
         sim.catchup(n, &member, &[("b".to_string(), "y".to_string(), v, st)], mx, g);
     }
+    if !sim.dead_case && mb_keys_enabled() && rng.chance(1, 3) {
+        // keys whose FIRST character is multi-byte (the class of F-2), through the catch-up path:
+        // a tombstone and live keys installed over an ASCII key (round 13: every other catch-up
+        // key was ASCII, so the listener dispatch was never reached with such a key from here)
+        stats.bump("catchup_multibyte_first_keys");
+        let n = rng.below(2) as usize;
+        let member = mk_id("mb", 4, 4004);
+        sim.catchup(n, &member, &[("a".to_string(), "x".to_string(), 1, 0)], 1, 0);
+        let st = *rng.pick(&[0u8, 0, 2]);
+        let mx = 4 + rng.below(3);
+        sim.catchup(
+            n,
+            &member,
+            &[
+                ("\u{e9}t\u{e9}".to_string(), "".to_string(), 2, 1),
+                ("\u{e9}cole".to_string(), "v".to_string(), 3, st),
+                ("\u{1d11e}".to_string(), "w".to_string(), 4, 0),
+            ],
+            mx,
+            rng.below(2),
+        );
+    }
 }
 
 // ------------------------------------------------------------------------------------------
